@@ -248,11 +248,29 @@ func (pe *PEngine) callRange(n *vn) (*big.Int, *big.Int, bool) {
 		return nil, nil, false
 	}
 	var lo, hi *big.Int
+	if len(callees) == 1 {
+		if r, ok := pe.callRangeMemo[callees[0]]; ok {
+			if r[0] == nil {
+				return nil, nil, false
+			}
+			return r[0], r[1], true
+		}
+		defer func() {
+			if pe.callRangeMemo == nil {
+				pe.callRangeMemo = map[*ssa.Function][2]*big.Int{}
+			}
+			if !pe.inCallRange[callees[0]] {
+				pe.callRangeMemo[callees[0]] = [2]*big.Int{lo, hi}
+			}
+		}()
+	}
 	for _, callee := range callees {
 		if len(callee.Blocks) == 0 || callee.Signature.Results().Len() != 1 {
+			lo, hi = nil, nil
 			return nil, nil, false
 		}
 		if pe.inCallRange[callee] {
+			lo, hi = nil, nil
 			return nil, nil, false
 		}
 		pe.inCallRange[callee] = true
@@ -266,6 +284,7 @@ func (pe *PEngine) callRange(n *vn) (*big.Int, *big.Int, bool) {
 			l, h, ok := valueRange(rv)
 			if !ok {
 				pe.inCallRange[callee] = false
+				lo, hi = nil, nil
 				return nil, nil, false
 			}
 			// what guards the return may bound the value further (return n only after n <= max): the
